@@ -70,7 +70,7 @@ theorem mismatch_never_admitted (r : Req)
 
 /-- a loader that verifies checksums rejects content whose hash differs from the one presented -/
 theorem answer_rejects_mismatch (s f : Spec) (c : Nat) (reload : Bool)
-    (hm : w.respOf s = .module f)
+    (hm : w.respFor s reload = .module f)
     (hh : (if reload then w.hashReload.lookup s else w.hashUse.lookup s) ≠ some c) :
     w.answer s (some c) reload = .checksumError := by
   unfold World.answer
@@ -84,7 +84,7 @@ theorem checksummed_redirect_rejected (r : Req) (to : Spec) (c : Nat)
     (h : w.respOf r.spec = .redirect to) (hc : r.checksum = some c) :
     tryLoad w o r = .err { kind := .checksumRedirect, spec := r.spec, referrer := r.range } := by
   unfold tryLoad tryLoad'
-  simp [World.answer, h, hc]
+  simp [World.answer, World.respFor, h, hc]
 
 /-- **new checksums are recorded**: a newly seen remote non-declaration module gets the hash of
 the bytes used handed to the lockfile … -/
